@@ -444,7 +444,7 @@ func QaStoreShape(st *ssa.Store) string {
 	// guarded by new > old :  old - new + 1 <= 0
 	want := qaFieldLin(st.Addr).add(Linearize(st.Val), -1)
 	want.K++
-	if holds(FactsAtInstr(st), Atom{LE, want}, true) {
+	if holds(FactsAtInstr(st), Atom{Kind: LE, L: want}, true) {
 		return "guarded"
 	}
 	if b, ok := v.(*ssa.BinOp); ok && b.Op == token.ADD {
@@ -638,7 +638,7 @@ func (p *Prog) QaSameObjFieldIs(at ssa.Instruction, obj ssa.Value, field string,
 	i := strings.LastIndex(field, ".")
 	r := &renderer{phis: map[*ssa.Phi]bool{}}
 	l := Lin{Coef: map[string]int64{r.base(obj) + "." + field[i+1:]: 1}, K: -k}
-	return holds(FactsAtInstr(at), Atom{EQ, l}.norm(), true)
+	return holds(FactsAtInstr(at), Atom{Kind: EQ, L: l}.norm(), true)
 }
 
 // QaTypestateStores: every store of one of the constants newVals to field in
